@@ -123,11 +123,11 @@ Print Assumptions C13_where_fin.
 Example where_family_size : List.length (where_family NTop ++ where_family NFrom ++ where_family NWhere) = 198.
 Proof. reflexivity. Qed.
 
-(* the known limit of the family: `order  by` (two blanks) is lexed `order` `by`, not the ORDER BY
-   keyword: the Where node then swallows the ORDER BY clause (outside the family; C11 finding) *)
+(* `order  by` (two blanks) is ONE Keyword token whose normalized value is 'ORDER BY' (the white space inside
+   compound keywords is collapsed since the fix in /repo; before, the Where node swallowed the ORDER BY clause) *)
 Example where_two_blank_order_by :
   check where_texts texts_eqb
-        (tx "select * from t where a = 1 order  by x", [tx "where a = 1 order  by x"]) = true.
+        (tx "select * from t where a = 1 order  by x", [tx "where a = 1 "]) = true.
 Proof. vm_compute. reflexivity. Qed.
 
 (* the code's "scan continues after the group": a set operator that is not in Where.M_CLOSE
@@ -208,13 +208,13 @@ Theorem C13_function_args_fin :
       (tx "select * from t where f(a, b) > 0", [[tx "a"; tx "b"]]) ] = true.
 Proof. vm_compute. reflexivity. Qed.
 
-(* the early exit of group_functions, end to end: in a CREATE TABLE without an upper-case AS no
-   Function is built, in any nesting level of that statement's top list only *)
+(* the early exit of group_functions, end to end: in a CREATE TABLE without AS (any letter case since the
+   fix of C11-as-case) no Function is built, in any nesting level of that statement's top list only *)
 Example function_create_table :
   check function_texts texts_eqb (tx "create table t (a int, b varchar(10))", [tx "varchar(10)"]) = true /\
   check function_texts texts_eqb (tx "create table t(a int)", []) = true /\
   check function_texts texts_eqb (tx "create table t AS select f(1)", [tx "f(1)"]) = true /\
-  check function_texts texts_eqb (tx "create table t as select f(1)", []) = true.
+  check function_texts texts_eqb (tx "create table t as select f(1)", [tx "f(1)"]) = true.
 Proof. conj_vm. Qed.
 
 (* ---- TypedLiteral family ------------------------------------------------------------------------ *)
